@@ -125,8 +125,8 @@ func allSpecs() []*HarnessSpec {
 			Quick: []Grid{{"n": {1, 63, 64, 65, 128}}},
 			Note:  "typed getters index Leaves.Bytes directly while Get goes through the rebuilt presence bitmap of 0.5.10 streams"},
 		{Name: "k_enc_type", Pkg: "encode", Property: "C15", Witness: 1,
-			Quick:    []Grid{{"type": rng(0, 4), "big": {0, 1}, "junk": {0, 2}, "both": {0, 1}}},
-			Thorough: []Grid{{"type": rng(0, 4), "big": {0, 1}, "junk": {0, 1, 2, 3}, "both": {0, 1}}},
+			Quick:    []Grid{{"type": rng(0, 6), "big": {0, 1}, "junk": {0, 2}, "both": {0, 1}}},
+			Thorough: []Grid{{"type": rng(0, 6), "big": {0, 1}, "junk": {0, 1, 2, 3}, "both": {0, 1}}},
 			Note:     "TypeEncoder wrapper logic under the encoding/binary layout model: four sizes agree with len(Encode), round trip with trailing bytes, scalars/arrays/structs with alignment padding, both byte orders"},
 		{Name: "k_innerbm", Pkg: "trie", Property: "C19", Witness: 1,
 			Quick:    []Grid{{"size": {17}, "from": rng(0, 175)}, {"size": {257}, "from": {0, 1, 63, 64, 65, 127, 128, 190, 191}}},
@@ -277,7 +277,7 @@ func apiSpecs() []*HarnessSpec {
 			q2 = append(q2, Grid{"n": {1, 2}, "L": {1}, "lens": rng(0, 3), "opt": {16, 9, 0}, "enc": {7}, "check": {p.check}, "lq": lq, "cv": {-1}})
 			t2 = append(t2, Grid{"n": {1, 2}, "L": {2}, "lens": rng(0, 8), "opt": p.small, "enc": {7}, "check": {p.check}, "lq": lq, "cv": {-1}})
 		}
-		if p.check == 1 || p.check == 2 || p.check == 3 || p.check == 9 || p.check == 10 {
+		if p.check == 1 || p.check == 2 || p.check == 3 || p.check == 9 || p.check == 10 || p.check == 18 {
 			// application encoder whose encodings are empty or of one fixed width: fixed-size leaf
 			// array with absent elements (presence bitmap + rank)
 			lq := []int{0}
@@ -334,7 +334,7 @@ func apiSpecs() []*HarnessSpec {
 			t3 = append(t3, Grid{"skel": {20, 21, 22}, "opt": p.small, "enc": {2}, "runs": {0}, "check": {p.check}, "lq": lqS, "symv": {1}, "vl": {2, 3}},
 				Grid{"skel": {20}, "opt": so, "enc": {2}, "runs": {0}, "check": {p.check}, "lq": lqS, "symv": {1}, "vl": {4, 5}})
 		}
-		if p.check != 14 && p.check != 18 {
+		if p.check != 14 {
 			// the empty-or-fixed-width application encoder on skeletons (every third value absent)
 			q3 = append(q3, l3Grid(p.check, []int{0, 1, 2, 5, 101, 110, 120, 303}, p.small[:2], []int{8}, []int{0, 2}, lqS),
 				Grid{"skel": {20, 21, 22}, "opt": p.small[:2], "enc": {8}, "runs": {0}, "check": {p.check}, "lq": lqS, "symv": {1}})
@@ -344,6 +344,16 @@ func apiSpecs() []*HarnessSpec {
 		// length-diverse skeletons (12, 13: key lengths on and around 32/64/128/256 bytes) and a key
 		// that is also an inner node with all 16 branches (14)
 		q3 = append(q3, l3Grid(p.check, []int{12, 13, 14}, p.small[:2], enc3, []int{0, 2}, lq3Q))
+		// a root with all 256 byte branches (17), and the empty key as well (18)
+		if len(p.lqQ) > 1 {
+			// (a symbolic first query byte forks into all 256 branches: one option case, runs of 3)
+			q3 = append(q3, l3Grid(p.check, []int{17, 18}, p.small[:1], enc3, []int{3}, lqS))
+		} else {
+			q3 = append(q3, l3Grid(p.check, []int{17, 18}, p.small[:2], enc3, []int{0, 3}, lqS))
+		}
+		// scale: 6000 pseudo-random 8-byte keys (bigger short-node tables, thousands of nodes per level)
+		q3 = append(q3, l3Grid(p.check, []int{16}, p.small[:2], enc3, []int{0}, lqS))
+		t3 = append(t3, l3Grid(p.check, []int{15, 16}, p.small, enc3, []int{0, 3}, lqS))
 		if len(p.lqQ) > 1 {
 			// queries much longer than the keys: an indexed key + lq symbolic bytes + a concrete tail
 			lt := l3Grid(p.check, []int{0, 1, 12, 13}, p.small[:2], enc3, []int{0}, []int{0, 1})
@@ -371,6 +381,16 @@ func apiSpecs() []*HarnessSpec {
 		pg := l3Grid(p.check, []int{0, 2, 5, 105}, p.small[:1], enc3, []int{0}, lqS)
 		pg["pre"] = []int{150}
 		q3 = append(q3, pg)
+		// ... with partially filled option structs (what a build is given must not leak into later builds)
+		pog := l3Grid(p.check, []int{0, 2}, p.small[:2], enc3, []int{0}, lqS)
+		pog["pre"], pog["preopt"] = []int{20}, []int{18, 19, 20, 21, 22}
+		q3 = append(q3, pog)
+		// partially filled option structs as the options of the trie under check
+		partial := []int{18, 19, 20, 21, 22}
+		if p.check == 3 {
+			partial = []int{18, 22} // the Complete ones
+		}
+		q3 = append(q3, l3Grid(p.check, []int{0, 1, 2}, partial, enc3, []int{0, 2}, lqS))
 		out = append(out, &HarnessSpec{Name: "l3_api", Pkg: "trie", Property: p.prop, Witness: 1,
 			Quick:    q3,
 			Thorough: t3,
@@ -387,6 +407,8 @@ func apiSpecs() []*HarnessSpec {
 			scanGrid(0, 2, optsComplFew, []int{1, 2, 0}, []int{0, 1, 2}, []int{0, 1}, []int{1}, []int{0}),
 			scanGrid(1, 2, optsComplFew, []int{1, 2, 0}, []int{0, 1, 2}, []int{0, 1, 2}, []int{1}, []int{0}),
 			alpha(scanGrid(2, 1, optsComplFew[:1], []int{1, 2, 8}, []int{0}, []int{1}, []int{1}, []int{0})),
+			{"n": {1}, "L": {1}, "lens": {0, 1}, "opt": {9}, "enc": {1}, "check": {4}, "lq": {1}, "cv": {-1}, "api": {0}, "le": {1}, "stop": {0}, "again": {1}},
+			{"n": {2}, "L": {1}, "lens": {3}, "opt": {9}, "enc": {1}, "check": {4}, "lq": {1}, "cv": {-1}, "api": {0}, "le": {1}, "stop": {0}, "again": {1}, "alpha": {1}},
 		},
 		Thorough: []Grid{
 			scanGrid(0, 2, optsComplete, []int{1, 2, 0}, []int{0, 1, 2}, []int{0, 1, 2}, []int{0, 1, 2}, []int{0, 1}),
@@ -396,13 +418,17 @@ func apiSpecs() []*HarnessSpec {
 		Note: "L2: NewIter/ScanFrom/ScanFromTo on Complete tries with symbolic start/end, inclusivities and withValue symbolic; the t-th yield must be the t-th retained key in range with its encoded value; exhaustion persists. n=2 key bytes range over a 6-letter nibble-diverse alphabet (the scan code forks per label bit)"})
 	out = append(out, &HarnessSpec{Name: "l3_api", Pkg: "trie", Property: "C04", Witness: 1,
 		Quick: []Grid{{"skel": {0, 1, 2, 3, 7}, "opt": {9}, "enc": {1}, "runs": {0, 2}, "check": {4}, "lq": {1, 2}, "api": {0}, "le": {1}, "stop": {0}},
-			{"skel": append(step(100, 112, 2), 300, 303, 305, 310, 313), "opt": {9}, "enc": {1}, "runs": {0, 3}, "check": {4}, "lq": {1}, "api": {0}, "le": {1}, "stop": {0}},
+			{"skel": {100, 102, 104, 106, 108, 310}, "opt": {9}, "enc": {1}, "runs": {0, 3}, "check": {4}, "lq": {1}, "api": {0}, "le": {1}, "stop": {0}}, // larger sweeps / aligned sets: thorough (minutes per item)
 			{"skel": {0}, "opt": {9}, "enc": {2}, "runs": {0}, "check": {4}, "lq": {1}, "api": {0, 2}, "le": {2}, "stop": {0}},
 			{"skel": {12, 13, 14}, "opt": {9}, "enc": {1}, "runs": {0}, "check": {4}, "lq": {1}, "api": {0}, "le": {1}, "stop": {0}},
+			{"skel": {18}, "opt": {9}, "enc": {1}, "runs": {0}, "check": {4}, "lq": {0}, "api": {0}, "le": {1}, "stop": {0}},
+			// a second pair of scans after the first iterator was polled past its end
+			{"skel": {0, 1, 2, 3, 22}, "opt": {9}, "enc": {1}, "runs": {0}, "check": {4}, "lq": {1}, "api": {0}, "le": {1}, "stop": {0}, "again": {1}},
 			// empty-or-fixed-width application encoder: absent leaves inside a fixed-size leaf array
-			{"skel": {0, 1, 2, 101, 104, 110}, "opt": {9}, "enc": {8}, "runs": {0, 2}, "check": {4}, "lq": {1}, "api": {0}, "le": {1}, "stop": {0}},
+			{"skel": {0, 1, 2, 101, 102}, "opt": {9}, "enc": {8}, "runs": {0, 2}, "check": {4}, "lq": {1}, "api": {0}, "le": {1}, "stop": {0}},
 			{"skel": {20, 21, 22}, "opt": {9}, "enc": {8, 2}, "runs": {0}, "check": {4}, "lq": {1}, "api": {0, 2}, "le": {1}, "stop": {0}, "symv": {1}}},
-		Thorough: []Grid{{"skel": {0, 1, 2, 3, 4}, "opt": optsComplete, "enc": {1, 2, 0}, "runs": {0, 2}, "check": {4}, "lq": {0, 1, 2, 3}, "api": {0, 1, 2}, "le": {1, 2}, "stop": {0, 2}}},
+		Thorough: []Grid{{"skel": {0, 1, 2, 3, 4}, "opt": optsComplete, "enc": {1, 2, 0}, "runs": {0, 2}, "check": {4}, "lq": {0, 1, 2, 3}, "api": {0, 1, 2}, "le": {1, 2}, "stop": {0, 2}},
+			{"skel": append(step(100, 112, 2), 300, 303, 305, 310, 313), "opt": {9}, "enc": {1, 8}, "runs": {0, 3}, "check": {4}, "lq": {1}, "api": {0}, "le": {1}, "stop": {0}}},
 		Note:     "L3: scans over skeleton tries (257-bit root, deep caterpillar whose stack outgrows the initial scan stack, prefix keys)"})
 	nonComplete := []int{0, 1, 2, 3, 4, 5, 16}
 	out = append(out, &HarnessSpec{Name: "l2_api", Pkg: "trie", Property: "C04", Witness: 1,
@@ -426,6 +452,7 @@ func apiSpecs() []*HarnessSpec {
 		Quick: []Grid{{"skel": {0, 1, 2}, "opt": {1}, "enc": {1}, "runs": {0, 2}, "check": {13}, "lq": {1, 3}},
 			{"skel": step(100, 150, 5), "opt": {1}, "enc": {1}, "runs": {0, 3}, "check": {13}, "lq": {1}},
 			{"skel": {12, 13, 14}, "opt": {1}, "enc": {1}, "runs": {0, 2}, "check": {13}, "lq": {1}},
+			{"skel": {17, 18}, "opt": {1}, "enc": {1}, "runs": {3}, "check": {13}, "lq": {1}},
 			{"skel": {0, 1, 12, 13}, "opt": {1}, "enc": {1}, "runs": {0}, "check": {13}, "lq": {0, 1}, "qkey": {-1}, "qtail": {0, 40}}},
 		Thorough: []Grid{{"skel": {0, 1, 2, 3, 4}, "opt": {0, 1}, "enc": {1}, "runs": {0, 2}, "check": {13}, "lq": {0, 1, 2, 3, 4, 5}}},
 		Note:     "L3: same on skeleton key sets"})
@@ -437,7 +464,7 @@ func apiSpecs() []*HarnessSpec {
 			{"n": {2}, "L": {2}, "lens": rng(0, 8), "opt": optsDistinct, "enc": {1, 0, 3}, "check": {19}, "lq": {0}, "cv": {0, 2}, "alpha": {1}}},
 		Note: "String() on every build path: no panic, one line per node, leaf lines carry the retained (concrete) values in key order"})
 	out = append(out, &HarnessSpec{Name: "l3_api", Pkg: "trie", Property: "C19", Witness: 1,
-		Quick: []Grid{{"skel": {0, 1, 2, 3, 4, 5, 6, 7, 8, 12, 13, 14}, "opt": {16, 9}, "enc": {1}, "runs": {0, 2}, "check": {19}, "lq": {0}, "loaded": {0, 1}},
+		Quick: []Grid{{"skel": {0, 1, 2, 3, 4, 5, 6, 7, 8, 12, 13, 14, 17, 18}, "opt": {16, 9}, "enc": {1}, "runs": {0, 2}, "check": {19}, "lq": {0}, "loaded": {0, 1}},
 			{"skel": append(step(100, 150, 1), append(rng(300, 306), rng(310, 315)...)...), "opt": {16, 9}, "enc": {1}, "runs": {0}, "check": {19}, "lq": {0}, "loaded": {0}}},
 		Thorough: []Grid{{"skel": {0, 1, 2, 3, 4, 5, 6, 7, 8, 9}, "opt": optsDistinct, "enc": {1, 3}, "runs": {0, 1, 2, 3}, "check": {19}, "lq": {0}, "loaded": {0, 1}}},
 		Note:     "String() on skeleton tries incl. short-node tables and a 257-bit root"})
@@ -453,6 +480,7 @@ func apiSpecs() []*HarnessSpec {
 		Quick: []Grid{{"skel": {0, 1, 2, 4, 5, 10}, "opt": {16, 9}, "enc": {1}, "runs": {0, 2}, "check": {5}, "lq": {1, 2}},
 			{"skel": {100, 102, 104}, "opt": {16, 9}, "enc": {1}, "runs": {0}, "check": {5}, "lq": {1}},
 			{"skel": {12, 13, 14}, "opt": {16, 9}, "enc": {1}, "runs": {0}, "check": {5}, "lq": {1}},
+			{"skel": {17, 18}, "opt": {16}, "enc": {1}, "runs": {0}, "check": {5}, "lq": {0}},
 			{"skel": {0, 13}, "opt": {16, 9}, "enc": {1}, "runs": {0}, "check": {5}, "lq": {1}, "qkey": {-1}, "qtail": {40}},
 			{"skel": append(step(105, 150, 5), 300, 301, 303, 304, 310, 311, 314), "opt": {16, 9, 4}, "enc": {1}, "runs": {0}, "check": {5}, "lq": {1}, "det": {0}}},
 		Thorough: []Grid{{"skel": {0, 1, 2, 3, 4, 5, 6, 7, 8, 10}, "opt": optsDistinct, "enc": {1, 2}, "runs": {0, 2}, "check": {5}, "lq": {0, 1, 2, 3, 4}}},
@@ -481,7 +509,8 @@ func apiSpecs() []*HarnessSpec {
 		Quick: []Grid{{"skel": {0, 1, 8, 101, 110, 303}, "model": {0, 1}, "variant": {1}, "opt": {0}, "lq": {0}}},
 		Note:  "legacy-loaded skeletons: KeyCnt = n and Stat equal to the index built by the current code (0.5.10 layout)"})
 	out = append(out, &HarnessSpec{Name: "l3_size_rel", Pkg: "trie", Property: "C17", Witness: 1,
-		Quick:    []Grid{{"family": {0, 1, 2, 3}, "n": {64}, "plen": {1, 200, 5000}}, {"family": {5}, "n": {60}, "plen": {127, 200}}, {"family": {0, 2, 5}, "n": {3, 60}, "plen": {1}, "pre": {150, 355}}},
+		Quick:    []Grid{{"family": {0, 1, 2, 3}, "n": {64}, "plen": {1, 200, 5000}}, {"family": {5}, "n": {60}, "plen": {127, 200}}, {"family": {0, 2, 5}, "n": {3, 60}, "plen": {1}, "pre": {150, 355}},
+			{"family": {0, 2}, "n": {3, 60}, "plen": {1}, "pre": {20}, "preopt": {18, 19, 20, 21, 22, 9, 6, 17}}},
 		Thorough: []Grid{{"family": {0, 1, 2, 3, 5}, "n": {16, 64, 256}, "plen": {1, 64, 127, 128, 200, 5000, 16000}}},
 		Note:     "relational clause on key sets with many inner steps: a concrete family K versus P+K (|P| up to 5000): the size measure differs by <= 24 (real sizes by <= 16 on the native replays)"})
 	// ---- C07 ----
@@ -514,6 +543,11 @@ func apiSpecs() []*HarnessSpec {
 			{"n": {2}, "L": {2}, "lens": rng(0, 8), "opt": {9, 6}, "enc": {1, 2}, "loaded": {0, 1}, "lq": {1, 2}, "api": {3, 5, 6}, "alpha": {1}}},
 		Note: "write-set monitor over every object reachable from the shared *SlimTrie: no read API (Get, GetID, RangeGet, Search, GetI32, Stat, ScanFrom, Marshal, String, NewIter/next) writes to pre-existing shared memory on any path; two interleaved iterators yield what each yields alone; value kinds: U16, I32, String16 and a reflection-driven *TypeEncoder over a struct (the encoder object is part of the monitored state)"})
 	// ---- C20 ----
+	out = append(out, &HarnessSpec{Name: "l3_nowrite", Pkg: "trie", Property: "C11", Witness: 1,
+		Quick: []Grid{{"skel": {0, 1, 2, 4, 5, 12, 14, 105, 120}, "opt": {16}, "enc": {1, 4}, "runs": {0, 2}, "loaded": {0, 1}, "lq": {1}, "api": {0, 1, 2, 4, 5}},
+			{"skel": {0, 1, 2, 3, 13, 104}, "opt": {9}, "enc": {1}, "runs": {0}, "loaded": {0, 1}, "lq": {1}, "api": rng(0, 6)}},
+		Thorough: []Grid{{"skel": append([]int{0, 1, 2, 3, 4, 5, 6, 7, 8, 10, 11, 12, 13, 14}, step(100, 150, 5)...), "opt": {16, 9, 2}, "enc": {1, 4, 2}, "runs": {0, 2}, "loaded": {0, 1}, "lq": {1, 2}, "api": rng(0, 6)}},
+		Note: "L3: the write-set monitor on skeleton tries (short-node tables, 257-bit nodes, keys of 0..300 bytes, scan stacks deeper than the initial stack), fresh and loaded; interleaved iterators on Complete skeletons"})
 	out = append(out, &HarnessSpec{Name: "l2_alias", Pkg: "trie", Property: "C20", Witness: 1,
 		Quick: []Grid{{"n": {0, 1, 2}, "L": {1}, "lens": rng(0, 3), "opt": optsAll, "part": {0}, "lq": {0}},
 			{"n": {1, 2}, "L": {1}, "lens": rng(0, 3), "opt": {16, 9, 2}, "part": {1, 2}, "lq": {1}},
@@ -539,6 +573,7 @@ func apiSpecs() []*HarnessSpec {
 	out = append(out, &HarnessSpec{Name: "ix_skel", Pkg: "index", Property: "C12", Witness: 1,
 		Quick: []Grid{{"keys": {7, 105, 120, 154, 194, 342}, "bs": {1, 3, 64}, "lq": {1}},
 			{"keys": {12, 13}, "bs": {1, 3}, "lq": {1}}, // key lengths 0..300, on and around 32/64/128/256 bytes
+			{"keys": {17, 18}, "bs": {1, 3}, "lq": {0}}, // all 256 byte branches at the root (and the empty key); every key is looked up
 			{"keys": {7, 105, 154}, "bs": {1, 3}, "lq": {1}, "other": {1, 2, 3}}},
 		Thorough: []Grid{{"keys": append([]int{7, 154, 194, 342, 623}, step(105, 400, 15)...), "bs": {1, 2, 3, 7, 64}, "lq": {1, 2}}, {"keys": {7, 105, 120, 154, 194, 342}, "bs": {1, 3, 64}, "lq": {1}, "other": {1, 2, 3}}},
 		Note:     "L3: concrete key sets (257-bit root, 64-aligned bitmap lengths / leaf counts / inner-node counts, sweeps) with block sizes 1..64: every indexed key returns its record; a symbolic query is found exactly when indexed"})
@@ -548,9 +583,9 @@ func apiSpecs() []*HarnessSpec {
 			{"type": {0, 1}, "n": {1}, "words": {0, 2, 5}, "pw": {0, 2, 5}, "loaded": {1}},
 			{"type": {0, 4}, "n": {2}, "words": {0, 6, 7, 12, 30, 35}, "pw": {0, 1, 5}, "loaded": {0}},
 			{"type": {1}, "n": {3}, "words": {0, 42, 43, 5*36 + 4*6 + 0}, "pw": {0, 1, 4}, "loaded": {0, 1}},
-			{"type": {6}, "n": {1, 2}, "words": {0, 6, 7, 30}, "pw": {0, 1, 5}, "loaded": {0, 1}}},
+			{"type": {6, 7}, "n": {1, 2}, "words": {0, 6, 7, 30}, "pw": {0, 1, 5}, "loaded": {0, 1}}},
 		Thorough: []Grid{{"type": rng(0, 5), "n": {1, 2}, "words": rng(0, 35), "pw": rng(0, 5), "loaded": {0}},
-			{"type": {6}, "n": {1, 2, 3}, "words": rng(0, 35), "pw": rng(0, 5), "loaded": {0, 1}},
+			{"type": {6, 7}, "n": {1, 2, 3}, "words": rng(0, 35), "pw": rng(0, 5), "loaded": {0, 1}},
 			{"type": {0, 1}, "n": {1, 2}, "words": rng(0, 35), "pw": rng(0, 5), "loaded": {1}},
 			{"type": {1, 4}, "n": {3}, "words": rng(0, 215), "pw": rng(0, 5), "loaded": {0}}},
 		Note: "typed arrays U16..I64 from symbolic ascending indexes (enumerated 64-bit word, symbolic bit) and symbolic elements: typed Get, raw GetBytes and the generic Array agree with the oracle for a symbolic probe inside the bitmap span; round trip through the codec stub into the typed and the generic type; struct elements with alignment padding through New / NewEmpty + load"})
@@ -578,7 +613,7 @@ func apiSpecs() []*HarnessSpec {
 		Thorough: []Grid{{"n": {0, 1, 2}, "L": {2}, "lens": rng(0, 8), "variant": {0, 1, 2, 3, 4, 5}, "hdr": {0, 1, 2}},
 			{"n": {3}, "L": {2}, "lens": rng(0, 26), "variant": {0, 1, 3, 4}, "hdr": {0, 2}, "alpha": {1}},
 			{"n": {3}, "L": {1}, "lens": rng(0, 7), "variant": {0, 3}, "hdr": {0}}},
-		Note: "symbolic key set -> writer model G.1 (u32 children with symbolic upper halves / 16-bit bitmap children / extended bitmaps / steps on leaves; header 1.0.0, 0.5.8, 0.5.9) -> three pbcmpl sections -> real Unmarshal (version dispatch, before000510ToNewChildrenArray, creator) -> Get/RangeGet/Search on every key; unchanged after the buffer is overwritten"})
+		Note: "symbolic key set -> writer model G.1 (u32 children with the first-child id in the upper half / 16-bit bitmap children / extended bitmaps / steps on leaves; header 1.0.0, 0.5.8, 0.5.9) -> three pbcmpl sections -> real Unmarshal (version dispatch, before000510ToNewChildrenArray, creator) -> Get/RangeGet/Search on every key; unchanged after the buffer is overwritten"})
 	out = append(out, &HarnessSpec{Name: "l2_legacy0510", Pkg: "trie", Property: "C06", Witness: 1,
 		Quick: []Grid{{"n": {0, 1}, "L": {2}, "lens": {0, 1, 2}, "opt": {0, 2, 8, 1, 9}, "enc": {1, 0}, "hdr": {0, 1}, "lq": {1, 2}},
 			{"n": {2}, "L": {2}, "lens": rng(0, 8), "opt": {0, 2, 8}, "enc": {1}, "hdr": {0, 1}, "lq": {2}},
@@ -591,6 +626,9 @@ func apiSpecs() []*HarnessSpec {
 	out = append(out, &HarnessSpec{Name: "l3_legacy", Pkg: "trie", Property: "C06", Witness: 1,
 		Quick: []Grid{{"skel": {0, 1, 2, 8, 12, 13, 14}, "model": {0}, "variant": {0, 1, 3}, "opt": {0}, "lq": {1}},
 			{"skel": {0, 1, 8, 9, 12, 13, 14}, "model": {1}, "variant": {0}, "opt": {0, 2, 8}, "lq": {1}},
+			// scale: 30000 keys, > 32768 nodes (node ids beyond 15 bits in the u32 children elements)
+			{"skel": {15}, "model": {0}, "variant": {0, 1}, "opt": {0}, "lq": {1}},
+			{"skel": {16}, "model": {1}, "variant": {0}, "opt": {0, 8}, "lq": {1}},
 			{"skel": append(step(100, 150, 2), append(rng(300, 306), rng(310, 315)...)...), "model": {0}, "variant": {1}, "opt": {0}, "lq": {0}},
 			{"skel": append(step(100, 150, 2), append(rng(300, 306), rng(310, 315)...)...), "model": {1}, "variant": {0}, "opt": {0, 8}, "lq": {0}}},
 		Thorough: []Grid{{"skel": {0, 1, 2, 3, 4, 7, 8, 9}, "model": {0}, "variant": {0, 1, 3, 4}, "opt": {0}, "lq": {1, 2}},
